@@ -31,7 +31,10 @@ func newXMLWriter() *xmlWriter {
 }
 
 func (enc *xmlWriter) Clear() {
-	panicOnErr(enc.w.Close())
+	// The previous document may have been abandoned half-way (an encoding panic
+	// recovered by the caller), in which case Close reports unclosed elements.
+	// The encoder is dropped anyway, so the error is of no interest.
+	_ = enc.w.Close()
 	enc.buf.Reset()
 	enc.w = xml.NewEncoder(enc.buf)
 	enc.w.Indent("", "    ")
